@@ -157,7 +157,10 @@ let run (p : cp) =
           match (try run_main prog fuel (n_of_int p.steps) s0 with Stack_overflow -> Fuel) with
           | Ok s ->
               ("ok",
-               List.map (fun (n, i) -> string_of_int (int_of_z (sget s.st_mem (explode n) (z_of_int i)))) p.watch,
+               (* a cell poisoned by store() has no C-level value: printed as the sentinel -999999 *)
+               List.map (fun (n, i) ->
+                   if poisoned s (explode n) (z_of_int i) then "-999999"
+                   else string_of_int (int_of_z (sget s.st_mem (explode n) (z_of_int i)))) p.watch,
                List.map (function
                    | EvLoad v -> "load:" ^ string_of_int (int_of_z v)
                    | EvStore x -> "store:" ^ implode x
